@@ -376,7 +376,10 @@ func streamCase(idx int64, r *rand.Rand) {
 	clsOut := 0
 	var curMsg interface{} // the message of the stream operation in progress
 	var curErr error       // and the error the wrapped operation returns
-	sinfo := &golangGrpc.StreamServerInfo{FullMethod: "/svc/S"}
+	// the kind of streaming RPC (client-, server-, bidirectional, or the zero value) changes nothing: every receive and every
+	// send is gated
+	sinfo := &golangGrpc.StreamServerInfo{FullMethod: "/svc/S", IsClientStream: r.IntN(2) == 0, IsServerStream: r.IntN(2) == 0}
+	rt.Count(fmt.Sprintf("stream_cases/client_stream=%v,server_stream=%v", sinfo.IsClientStream, sinfo.IsServerStream), 1)
 	recvCode, sendCode := codeChoices[r.IntN(len(codeChoices))], codeChoices[r.IntN(len(codeChoices))]
 	recvErr, sendErr := exceededErr(r, recvCode, "recv limit exceeded"), exceededErr(r, sendCode, "send limit exceeded")
 	var opts []gclGrpc.StreamInterceptorOption
@@ -685,7 +688,7 @@ func defaultDirectionsCase(idx int64, r *rand.Rand) {
 	ic := gclGrpc.StreamServerInterceptor(opts...)
 	var sendErr error
 	granted := 0
-	_ = ic("srv", bs, &golangGrpc.StreamServerInfo{FullMethod: "/svc/D"}, func(srv interface{}, ss golangGrpc.ServerStream) error {
+	_ = ic("srv", bs, &golangGrpc.StreamServerInfo{FullMethod: "/svc/D", IsClientStream: r.IntN(2) == 0, IsServerStream: r.IntN(2) == 0}, func(srv interface{}, ss golangGrpc.ServerStream) error {
 		var wg sync.WaitGroup
 		errs := make([]error, 20)
 		for i := 0; i < 20; i++ {
